@@ -145,10 +145,12 @@ def check_stage0(case, o, route, pads_1d=False):
         for e in fin_edges:
             if not (0 <= e[0] < e[1] < N):
                 return ("edge-range", "edge %s is not (a,b) with 0 <= a < b < %d" % (e, N))
-        decl_keys = [skey(e) for e in edges if valid(e)]
-        decl_count = {}
-        for k in decl_keys:
-            decl_count[k] = decl_count.get(k, 0) + 1
+        kept, decl_keys = [], []            # an edge declared more than once counts once: its first declaration
+        for i, e in enumerate(edges):
+            if valid(e) and skey(e) not in decl_keys:
+                kept.append(i)
+                decl_keys.append(skey(e))
+        decl_count = {k: 1 for k in decl_keys}
         sides = set()
         if ce and fin_faces:
             for f in fin_faces:
@@ -166,13 +168,8 @@ def check_stage0(case, o, route, pads_1d=False):
                     % (sorted(got), sorted(want_keys), sorted(want_keys - set(got)), sorted(set(got) - want_keys)))
         dups = sorted(k for k, n in got.items() if n > 1)
         if dups:
-            if all(got[k] <= decl_count.get(k, 0) for k in dups):
-                dup_finding = ("edge-list/duplicate-declared",
-                               "edges %s occur more than once in the edge list: they were declared more than once %s" % (dups, edges))
-            else:
-                return ("edge-dup", "edges %s occur more often in %s than they were declared" % (dups, fin_edges))
+            return ("edge-dup", "edges %s occur more than once in the edge list %s" % (dups, fin_edges))
         # ---- attributes: (edge, value) pairs - a value survives iff its edge survives, and stays with that edge
-        kept = [i for i, e in enumerate(edges) if valid(e)]
         names = [a["name"] for a in o["eattrs"]]
         for a in case["eattrs"]:
             if a["name"] not in names:
